@@ -181,13 +181,13 @@ PROPS["C09"] = dict(
     must_build=["asan"],
     runs=dict(quick=4000, thorough=100000), secs=dict(quick=55, thorough=700),
     rule="one evaluation = one simulated call over a lossy link: a live encoder (FEC-capable SILK / hybrid settings over-represented, all modes present, DTX off) whose packets each carry a link fault decision "
-         "(iid, Gilbert-Elliott bursts, periodic, every 12-bit sliding-window pattern sampled, long bursts up to 10 s, loss right after a mode / configuration transition; late and duplicate packets are discarded by the jitter buffer), "
+         "(iid, Gilbert-Elliott bursts, periodic, 12-bit sliding-window patterns sampled, window-enumeration sessions in which all 2^k patterns (k <= 6 quick, <= 9 thorough) over a seeded window - also across mode / rate / duration transitions - are played out through fresh receivers, long bursts up to 10 s, loss right after a mode / configuration transition; late and duplicate packets are discarded by the jitter buffer), "
          "played out through three real decoders: L (faulty link, seeded play-out policy: FEC from the next packet when it has arrived - also with a frame_size larger than the packet's - else PLC in one call or in 2.5-20 ms pieces), "
-         "P (same link, concealment only) and R (loss-free twin); exact oracles: requested counts, finite output, BAD_ARG for non-2.5 ms sizes, every received packet ends with the encoder's final range on L and P; "
+         "P (same link, concealment only) and R (loss-free twin); exact oracles: requested counts, finite output, BAD_ARG for non-2.5 ms sizes, every received packet ends with the encoder's final range on L and P, an FEC request that cannot use a redundant copy (MDCT-only packet or history, frame_size below the packet's) is bit-identical to a concealment request on a byte copy of the receiver; "
          "calibrated oracles with stated preconditions: concealed peak bounded by the recent level, decay after >= 1 s of loss (decay-probe sessions), FEC error well below PLC error on isolated losses with LBRR (FEC-probe sessions), "
          "reconvergence to R within 250 ms after faults stop for CELT-only streams (SILK / hybrid reconvergence is recorded as a probe only); non-trivial = at least one loss fired and >=5 calls succeeded; distinct = signature over the (TOC config, FEC / PLC, next-arrived) sequence of the lost packets",
     fault_keys=["f_drop", "f_burst", "f_late", "f_dup_discarded", "f_after_transition"],
-    probes_required=["rx_lost", "rx_received", "plc_calls", "plc_in_pieces", "fec_with_lbrr", "fec_without_lbrr", "fec_larger_frame_size", "bounded_checked", "decay_checked", "fec_gain_checked", "fec_frame_level_checked", "fec_frame_level_checked_first_lbrr_frame_not_first", "recovery_checked_celt", "recovery_checked_flushed", "odd_frame_size_checked", "mode_silk", "mode_hybrid", "mode_celt"],
+    probes_required=["rx_lost", "rx_received", "plc_calls", "plc_in_pieces", "fec_with_lbrr", "fec_without_lbrr", "fec_larger_frame_size", "bounded_checked", "decay_checked", "fec_gain_checked", "fec_frame_level_checked", "fec_frame_level_checked_first_lbrr_frame_not_first", "recovery_checked_celt", "recovery_checked_flushed", "odd_frame_size_checked", "mode_silk", "mode_hybrid", "mode_celt", "window_patterns_played", "fec_vs_plc_exact_checked"],
     real=REAL_CODEC, simulated=SIM_COMMON + ["lossy link (loss patterns attached per packet)", "jitter buffer / play-out policy", "three receiver replicas (faulty, concealment-only, loss-free twin)"],
     assumptions=ASSUME_COMMON + ["the numeric clauses (bounded, decay, FEC gain, recovery) are calibrated with preconditions (calib/thresholds.json C09.*): unconditioned they are not true of a healthy IIR decoder",
                                  "perceptual quality of concealment is not judged"],
